@@ -960,9 +960,23 @@ impl Element {
                     let mut prev_path = None;
                     if self.element_name() == ElementName::ShortName {
                         // this SHORT-NAME element might be newly created, in which case there is no previous path
-                        if self.character_data().is_some() {
+                        if let Some(prev_name) = self.character_data().and_then(|cdata| cdata.string_value()) {
                             if let Some(parent) = self.parent()? {
-                                prev_path = Some(parent.path()?);
+                                let path = parent.path()?;
+                                // like set_item_name(): the new name may not collide with an existing element
+                                if let (Some(prefix), CharacterData::String(new_name)) =
+                                    (path.strip_suffix(prev_name.as_str()), &chardata)
+                                {
+                                    if *new_name != prev_name
+                                        && model.get_element_by_path(&format!("{prefix}{new_name}")).is_some()
+                                    {
+                                        return Err(AutosarDataError::DuplicateItemName {
+                                            element: parent.element_name(),
+                                            item_name: new_name.clone(),
+                                        });
+                                    }
+                                }
+                                prev_path = Some(path);
                             }
                         }
                     };
